@@ -1,6 +1,6 @@
 (* Command dispatcher of the extracted engine. *)
 From Zorg Require Import Base.PyStr Base.Sexp Base.Res.
-From Zorg Require Import Model.FileGroups Model.Zid Model.Rename Model.Templates Model.SavedQ Model.ActionOpen.
+From Zorg Require Import Model.FileGroups Model.Zid Model.Rename Model.Templates Model.SavedQ Model.ActionOpen Model.FileListener.
 
 Definition commands : list (str * (list sexp -> sexp)) :=
   [ (S "expand", cmd_expand)
@@ -17,6 +17,7 @@ Definition commands : list (str * (list sexp -> sexp)) :=
   ; (S "names_in", cmd_names_in)
   ; (S "action", cmd_action)
   ; (S "targets", cmd_targets)
+  ; (S "listen", cmd_listen)
   ].
 
 Fixpoint find_cmd (n : str) (l : list (str * (list sexp -> sexp))) : option (list sexp -> sexp) :=
